@@ -20,9 +20,117 @@ func b2s(b bool) string {
 	return "0"
 }
 
+func calcUnitsCase(rng *Rng, out *Out) {
+	// pool state: units of the magnitude of the native depth (as after a creation), perturbed
+	R := rng.Amount(110)
+	A := rng.Amount(110)
+	P := rng.Near(R)
+	if rng.Chance(1, 6) {
+		P = rng.Amount(110)
+	}
+	var r, a *big.Int
+	switch rng.Intn(6) {
+	case 0: // symmetric-ish: a = r*A/R
+		r = rng.Amount(100)
+		a = new(big.Int).Mul(r, A)
+		if R.Sign() > 0 {
+			a.Quo(a, R)
+		}
+		if rng.Bool() {
+			a = rng.Near(a)
+		}
+	case 1:
+		r = big.NewInt(0)
+		a = rng.Amount(110)
+	case 2:
+		a = big.NewInt(0)
+		r = rng.Amount(110)
+	default:
+		r = rng.Amount(110)
+		a = rng.Amount(110)
+	}
+	fS := rng.Rate01()
+	fB := rng.Rate01()
+	p := rng.RateNonNeg()
+	if rng.Chance(1, 2) {
+		p = big.NewInt(0)
+	}
+	op := fmt.Sprintf("poolunits %s %s %s %s %s %s %s %s", P, R, A, r, a, fS, fB, p)
+	cls := "poolunits.ok"
+	ans := protect(func() string {
+		pu, lu, st, sa, err := clpkeeper.CalculatePoolUnits(uintOf(P), uintOf(R), uintOf(A), uintOf(r), uintOf(a), decRaw(fS), decRaw(fB), decRaw(p))
+		if err != nil {
+			cls = "poolunits.err"
+			return "err"
+		}
+		sas := "0"
+		if st != clpkeeper.NoSwap {
+			sas = sa.String()
+		}
+		return fmt.Sprintf("ok %s %s %d %s", pu, lu, st, sas)
+	})
+	if ans == "panic" {
+		cls = "poolunits.panic"
+	} else if len(ans) > 3 {
+		var a1, a2, a4 string
+		var st int
+		fmt.Sscanf(ans, "ok %s %s %d %s", &a1, &a2, &st, &a4)
+		cls = fmt.Sprintf("poolunits.status%d", st)
+	}
+	out.Emit(op, ans, cls, cls != "poolunits.err")
+}
+
+func calcWithdrawCase(rng *Rng, out *Out) {
+	R := rng.Amount(110)
+	A := rng.Amount(110)
+	P := rng.Near(R)
+	if P.Sign() == 0 {
+		P = big.NewInt(1)
+	}
+	// provider units <= pool units, over all share magnitudes
+	lp := new(big.Int).Rsh(P, uint(rng.Intn(P.BitLen()+1)))
+	if rng.Chance(1, 4) {
+		lp = new(big.Int).Set(P)
+	}
+	if lp.Sign() == 0 {
+		lp = big.NewInt(1)
+	}
+	if rng.Bool() {
+		w := int64(1 + rng.Intn(10000))
+		if rng.Chance(1, 4) {
+			w = 10000
+		}
+		op := fmt.Sprintf("withdraw %s %s %s %s %d", P, R, A, lp, w)
+		ans := protect(func() string {
+			n, e, l, _ := clpkeeper.CalculateWithdrawal(uintOf(P), R.String(), A.String(), lp.String(), fmt.Sprint(w), sdk.ZeroInt())
+			return fmt.Sprintf("ok %s %s %s", n, e, l)
+		})
+		out.Emit(op, ans, "withdraw."+ans[:2], ans != "panic")
+	} else {
+		wu := new(big.Int).Rsh(lp, uint(rng.Intn(lp.BitLen()+1)))
+		if wu.Sign() == 0 {
+			wu = big.NewInt(1)
+		}
+		op := fmt.Sprintf("withdrawunits %s %s %s %s %s", P, R, A, lp, wu)
+		ans := protect(func() string {
+			n, e, l := clpkeeper.CalculateWithdrawalFromUnits(uintOf(P), R.String(), A.String(), lp.String(), uintOf(wu))
+			return fmt.Sprintf("ok %s %s %s", n, e, l)
+		})
+		out.Emit(op, ans, "withdrawunits."+ans[:2], ans != "panic")
+	}
+}
+
 func init() {
 	families["calc"] = func(rng *Rng, n int, out *Out, replay string) {
 		for k := 0; k < n; k++ {
+			switch k % 4 {
+			case 1:
+				calcUnitsCase(rng, out)
+				continue
+			case 3:
+				calcWithdrawCase(rng, out)
+				continue
+			}
 			toRowan := rng.Bool()
 			X := rng.Amount(110)
 			Y := rng.Amount(110)
